@@ -156,6 +156,13 @@ Notify [grp="g2"]:
     Push:
         Audit <- Log
         Store <- Save
+SeqProj [seqtitle="%(epname)", owner="docs"]:
+    SEQ-A [blackboxes=[["Store <- Load", "not shown here"]]]:
+        Shop <- Refresh
+    SEQ-B:
+        Shop <- Refresh
+    SEQ-C [seqtitle="title %(epname)", appfmt="%(appname)!"]:
+        Shop <- GET /items/{id}
 Proj:
     view [exclude=["Notify"], passthrough=["Store"]]:
         Shop
@@ -242,6 +249,13 @@ func c19Gens() []c19Gen {
 				}
 			}
 			return b.Bytes(), nil
+		}},
+		{Name: "sd-project-plantuml", Models: []string{"rich"}, Run: func(m *sysl.Module, _ string) ([]byte, error) {
+			out, err := sequencediagram.DoConstructSequenceDiagrams(&cmdutils.CmdContextParamSeqgen{AppsFlag: []string{"SeqProj"}, Output: "%(epname)", EndpointFormat: "%(epname)", AppFormat: "%(appname)"}, m, nullLogger())
+			if err != nil {
+				return nil, err
+			}
+			return joinMap(out), nil
 		}},
 		{Name: "ints-plantuml", Models: []string{"rich"}, Run: func(m *sysl.Module, _ string) ([]byte, error) {
 			var b bytes.Buffer
@@ -476,6 +490,33 @@ func (c19) Run(c core.Case) core.Outcome {
 		o.Class = "generator-error"
 		o.Gap = fmt.Sprintf("generator %s on model %s: %s", cs.Gen, cs.Model, errs)
 		return o
+	}
+	// the command repeated on ONE in-memory model (a generator that writes into its input changes its own
+	// second result)
+	if m, err := parse.NewParser().ParseString(c19Models[cs.Model]); err == nil {
+		for _, g := range c19Gens() {
+			if g.Name != cs.Gen {
+				continue
+			}
+			var outs [3][]byte
+			for r := 0; r < 3; r++ {
+				func() {
+					defer func() { _ = recover() }()
+					outs[r], _ = g.Run(m, cs.Model)
+				}()
+				o.Traces++
+			}
+			if !bytes.Equal(outs[0], outs[1]) || !bytes.Equal(outs[0], outs[2]) {
+				d := firstDiff(string(outs[0]), string(outs[1]))
+				if bytes.Equal(outs[0], outs[1]) {
+					d = firstDiff(string(outs[0]), string(outs[2]))
+				}
+				o.Class = "violation"
+				o.Violation = fmt.Sprintf("generator %s on model %s: repeating the generation on the same in-memory model gives different output: %s", cs.Gen, cs.Model, d)
+				o.Sig = "not-repeatable|" + cs.Gen
+				return o
+			}
+		}
 	}
 	for k := uintptr(0); k <= 1; k++ {
 		for seed := uintptr(0); seed < 8; seed++ {
